@@ -99,6 +99,18 @@ func build(c Case) (*fiber.App, *run) {
 				r.calls[name]++
 				return errors.New("error handler failed")
 			}}
+		case "fail-pass":
+			// the common "render what I know, otherwise pass it on" idiom: fails with the error it was given
+			// (a framework error value with its own status for 404/405/NewError)
+			return fiber.Config{ErrorHandler: func(_ fiber.Ctx, err error) error {
+				r.calls[name]++
+				return err
+			}}
+		case "fail-fiber":
+			return fiber.Config{ErrorHandler: func(fiber.Ctx, error) error {
+				r.calls[name]++
+				return fiber.NewError(fiber.StatusTeapot, "error handler failed with a framework error value")
+			}}
 		}
 		return fiber.Config{}
 	}
@@ -195,7 +207,7 @@ func check(c Case) vk.Verdict {
 			if st != 599 {
 				return vk.Failf("%s: handler %s ran but status is %d", ctx, want, st)
 			}
-		case "fail":
+		case "fail", "fail-pass", "fail-fiber":
 			if st != 500 {
 				return vk.Failf("%s: error handler %s failed, status is %d, want 500", ctx, want, st)
 			}
@@ -246,7 +258,7 @@ func genNodes(t *rapid.T, depth int, base string, used map[string]bool, ctr *int
 		}
 		used[full] = true
 		*ctr++
-		nd := Node{Prefix: p, Handler: rapid.SampledFrom([]string{"", "ok", "ok", "fail"}).Draw(t, "h"), Name: fmt.Sprintf("app%d", *ctr)}
+		nd := Node{Prefix: p, Handler: rapid.SampledFrom([]string{"", "ok", "ok", "fail", "fail-pass", "fail-fiber"}).Draw(t, "h"), Name: fmt.Sprintf("app%d", *ctr)}
 		if depth > 0 {
 			nd.Children = genNodes(t, depth-1, full, used, ctr)
 		}
@@ -256,7 +268,7 @@ func genNodes(t *rapid.T, depth int, base string, used map[string]bool, ctr *int
 }
 
 func genCase(t *rapid.T) Case {
-	c := Case{RootHandler: rapid.SampledFrom([]string{"", "ok", "ok", "fail"}).Draw(t, "root")}
+	c := Case{RootHandler: rapid.SampledFrom([]string{"", "ok", "ok", "fail", "fail-pass", "fail-fiber"}).Draw(t, "root")}
 	ctr := 0
 	c.Tree = genNodes(t, 2, "", map[string]bool{"": true}, &ctr)
 	var cands []cand
